@@ -23,6 +23,7 @@ from . import common as C
 
 PID = "C20"
 META = {
+    "ready": True,
     "category": "proof",
     "technique": "Lean 4 proofs over an executable model of the conversion impls, the register_fn wrappers and the "
                  "lending nursery (all values / argument lists / operation sequences, by induction) + decide theorems "
